@@ -43,6 +43,7 @@ type Profile struct {
 	HTTP        bool   `json:",omitempty"` // HTTP GET / HEAD / POST requests (temporary connections) besides the WebSocket clients
 	ResetFaults bool   `json:",omitempty"` // get requests for resources that did not change silently may fail (re-fetches of resets included)
 	Legacy      bool   `json:",omitempty"` // some clients negotiate protocol 1.2.0 / 1.1.1 or send no version request
+	Once        bool   `json:",omitempty"` // the fragment modelled by Comp/Core.v: subscribe requests only, one per client and resource; the state the service starts from is noted in the trace
 	Scenario    string `json:",omitempty"` // phase-structured histories (scenario.go) instead of independent random stimuli
 }
 
@@ -70,6 +71,7 @@ type Explorer struct {
 	focusC, focusR int
 	slowR          int
 	slowTyp        string
+	onceDone       map[string]bool // (profile flag Once) requests already made, by client and resource
 	dirty          map[string]bool // resources changed silently (announced by a reset only) and not fetched successfully since
 }
 
@@ -158,7 +160,7 @@ func (x *Explorer) initTruth() {
 			}
 		}
 	}
-	if x.R.Intn(4) == 0 && !x.P.Queries {
+	if x.R.Intn(4) == 0 && !x.P.Queries && !x.P.Once {
 		x.Truth[name(x.R.Intn(x.P.Resources))] = nil // a resource that does not exist
 	}
 	if x.P.Queries {
@@ -500,6 +502,15 @@ func (x *Explorer) svcEvent() (gw.Action, bool) {
 			}
 		}
 		ch[9] = absval.V{K: 'p', N: x.fresh()} // makes every change event unique and effective
+		if x.P.Once && x.R.Intn(3) == 0 {
+			// partly ineffective: a key repeated with the value it has (the gateway forwards the effective part only)
+			for key, v := range c.M {
+				if _, ok := ch[key]; !ok {
+					ch[key] = v
+					break
+				}
+			}
+		}
 		for key, v := range ch {
 			if v.K == 'x' {
 				delete(c.M, key)
@@ -553,6 +564,16 @@ func (x *Explorer) clientFrame(c *gw.Client) (gw.Action, bool) {
 		rid = "test.long" + strings.Repeat("x", 4085+x.R.Intn(12))
 	}
 	key := c.Label + " " + rid
+	if x.P.Once {
+		if x.onceDone == nil {
+			x.onceDone = map[string]bool{}
+		}
+		if x.onceDone[key] {
+			x.nextID[c.Label]--
+			return gw.Action{}, false
+		}
+		x.onceDone[key] = true
+	}
 	kinds := []string{"subscribe", "subscribe", "subscribe"}
 	if x.P.Unsub {
 		kinds = append(kinds, "unsubscribe", "unsubscribe")
@@ -673,6 +694,11 @@ func Explore(seed int64, p Profile) (run *gw.Run, stall error) {
 		}
 	}()
 	x.initTruth()
+	if p.Once {
+		for _, l := range x.truthLines() {
+			x.Run.Do(gw.Action{A: "note", Abs: "INIT" + strings.TrimPrefix(l, "TRUTH")})
+		}
+	}
 	if p.Throttle > 0 {
 		x.Run.Do(gw.Action{A: "note", Abs: "THROTTLE\t" + strconv.Itoa(p.Throttle)})
 	}
